@@ -166,9 +166,15 @@ func runRefuse(c *core.Ctx) {
 		sites := writeHeaders(fn)
 		count := map[int]int{}
 		name := kn(c.P.FuncName(fn))
+		ftags := handlerTags(c, r, fn)
 		for _, s := range sites {
 			count[s.status]++
 			key := fmt.Sprintf("after:%s#%d#%d", name, s.status, count[s.status])
+			tags := append([]string{}, ftags...)
+			if s.status == 403 {
+				tags = append(tags, "ro")
+			}
+			c.SetTags(tags...)
 			bad := ""
 			an.ReachFrom(s.call, func(in ssa.Instruction) bool {
 				if bad != "" {
@@ -194,13 +200,14 @@ func runRefuse(c *core.Ctx) {
 				c.Pass(key, s.call.Pos(), "nothing mutating reachable after status %d", s.status)
 			}
 		}
+		c.SetTags(ftags...)
 		// helpers that write the response: named functions with a ResponseWriter parameter returning error
 		if fn.Parent() == nil && len(sites) > 0 && fn.Signature.Results().Len() == 1 && an.IsErrorType(fn.Signature.Results().At(0).Type()) {
 			okRet := true
 			for _, s := range sites {
 				an.ReachFrom(s.call, func(in ssa.Instruction) bool {
 					if ret, ok := in.(*ssa.Return); ok {
-						if !an.IsNilConst(ret.Results[0]) {
+						if !retErrNil(ret) {
 							okRet = false
 						}
 					}
@@ -347,8 +354,7 @@ func runAck(c *core.Ctx) {
 						}
 					case *ssa.Return:
 						if returnsErr && fn.Signature.Results().Len() > 0 {
-							rv := x.Results[len(x.Results)-1]
-							if an.IsNilConst(rv) {
+							if retErrNil(x) {
 								bad = fmt.Sprintf("`return nil` at %s is reachable although the error of %s at %s %s", c.P.Pos(x.Pos()), what, c.P.Pos(call.Pos()), how)
 							}
 						}
@@ -1075,4 +1081,58 @@ func init() {
 				c.Unresolved("shutdown", "no function calling (*http.Server).Shutdown found")
 			}
 		}})
+}
+
+// handlerTags classifies a function of the server package by role: "push" (the manifest push handler and
+// what it contains), "upload" (functions that create, look up or feed upload sessions), "delete"
+// (functions reaching IndexRemove / BlobDelete), "referrer" (the referrers update helpers), "read".
+func handlerTags(c *core.Ctx, r *Roles, fn *ssa.Function) []string {
+	top := fn
+	var tags []string
+	if ph := findPushHandler(c); ph != nil {
+		for f := fn; f != nil; f = f.Parent() {
+			if f == ph.hs.fn {
+				tags = append(tags, "push")
+			}
+		}
+	}
+	for _, h := range referrerHelpers(c) {
+		if h == top {
+			tags = append(tags, "referrer")
+		}
+	}
+	session, del := false, false
+	an.Calls(fn, func(call ssa.CallInstruction) {
+		if r.IsAPI(call, "Repo", "BlobSession") || r.IsAPI(call, "BlobCreator", "Verify", "Cancel", "ChangeAlgorithm") {
+			session = true
+		}
+		if r.IsAPI(call, "Repo", "IndexRemove", "BlobDelete") {
+			del = true
+		}
+	})
+	hasTag := func(t string) bool {
+		for _, x := range tags {
+			if x == t {
+				return true
+			}
+		}
+		return false
+	}
+	if !hasTag("push") && !hasTag("referrer") {
+		an.Calls(fn, func(call ssa.CallInstruction) {
+			if isBlobCreate(r, call) {
+				session = true
+			}
+		})
+	}
+	if session {
+		tags = append(tags, "upload")
+	}
+	if del {
+		tags = append(tags, "delete")
+	}
+	if len(tags) == 0 {
+		tags = append(tags, "read")
+	}
+	return tags
 }
